@@ -447,6 +447,14 @@ func (x *Exec) closurePre(fr *Frame, st *State, c *Closure) {
 			env.vars[fv.Name()] = x.load(st, x.locOfPointer(st, c.Bindings[i], T), T)
 		}
 	}
+	if fr.isEntry && fr.fn.Parent() == nil {
+		env.outer = map[string]Val{}
+		for i, p := range fr.fn.Params {
+			if i < len(fr.params) {
+				env.outer[p.Name()] = fr.params[i]
+			}
+		}
+	}
 	for _, cl := range ctr.Requires {
 		mentionsParam := false
 		for _, p := range c.Fn.Params {
@@ -457,6 +465,44 @@ func (x *Exec) closurePre(fr *Frame, st *State, c *Closure) {
 		if mentionsParam {
 			continue // about the arguments, checked at call sites
 		}
-		x.oblige(st, "CALL", fmt.Sprintf("closure-pre(%s: %s)", FuncKey(c.Fn), cl.Src), x.evalBool(env, cl.Expr), "precondition of a closure over its captured variables, at creation")
+		var errs []string
+		env.errs = &errs
+		g := x.evalBool(env, cl.Expr)
+		if len(errs) > 0 {
+			x.note("stale closure requires skipped (does not bind to the code): %s", cl.Src)
+			continue
+		}
+		x.oblige(st, "CALL", fmt.Sprintf("closure-pre(%s: %s)", FuncKey(c.Fn), cl.Src), g, "precondition of a closure over its captured variables, at creation")
 	}
+}
+
+// outerGhost: in the standalone verification of a closure, the entry value
+// of a parameter of the outermost enclosing function is an arbitrary ghost
+// value (the closure's requires relate the captured variables to it).
+func (x *Exec) outerGhost(st *State, name string) (Val, bool) {
+	if v, ok := x.outerVals[name]; ok {
+		return v, true
+	}
+	root := rootFn(x.fn)
+	if root == x.fn {
+		for i, p := range root.Params {
+			if p.Name() == name && i < len(x.entryParams) {
+				return x.entryParams[i], true
+			}
+		}
+		return Val{}, false
+	}
+	for _, p := range root.Params {
+		if p.Name() == name {
+			t := x.fresh("outer_"+name, p.Type())
+			v := Val{T: t, Typ: p.Type()}
+			if x.outerVals == nil {
+				x.outerVals = map[string]Val{}
+			}
+			x.outerVals[name] = v
+			x.inputs["outer("+name+")"] = t
+			return v, true
+		}
+	}
+	return Val{}, false
 }
